@@ -636,6 +636,17 @@ impl<'a> Searcher<'a> {
             ("follow", self.current_follow_symlinks.to_string()),
         ]);
 
+        // everything below an ignored directory is ignored, also when the search starts inside it
+        // (a negated pattern cannot re-include a file whose directory is excluded)
+        #[cfg(feature = "git")]
+        if apply_gitignore {
+            if let Some(repository) = git_repository {
+                if repository.is_path_ignored(Path::new(&canonical_path)).unwrap_or(false) {
+                    return Ok(());
+                }
+            }
+        }
+
         // Read the directory and process each entry
         match fs::read_dir(dir) {
             Ok(entry_list) => {
